@@ -345,6 +345,10 @@ func (st *SymbolTable) DisableBuiltin(names ...string) {
 
 	for _, n := range names {
 		root.disabledBuiltins[n] = struct{}{}
+		// forget the builtin symbol cached by an earlier Resolve call
+		if s, ok := root.store[n]; ok && s.Scope == ScopeBuiltin {
+			delete(root.store, n)
+		}
 	}
 }
 
